@@ -305,7 +305,7 @@ fn first_difference(a: &Canon, b: &Canon, path: &str) -> Option<String> {
     }
 }
 fn trunc(c: &Canon) -> String {
-    let s = format!("{:?}", c);
+    let s = crate::engine::val::show(c);
     s.chars().take(120).collect()
 }
 /// An entry that only spells out the specification's default (or an empty collection) carries no content:
